@@ -333,4 +333,65 @@ theorem allInt_of_B (s : St) (hb : allIntB s = true) : AllInt s := by
     · rw [e]; rfl
     · exact hb.2 _ e
 
+/-! ### the arrays of texts keep the size of the heap's tables (so `specB`, which ranges over the heap's cells, speaks of
+every text of the state) -/
+
+def InvSize (h : Heap) (s : St) : Prop := s.refs.size = h.cells.size ∧ s.pirefs.size = h.pis.size
+
+theorem size_set (a : Array Str) (i : Nat) (v : Str) : (a.set! i v).size = a.size := by
+  simp [Array.set!_eq_setIfInBounds]
+
+theorem invSize_step (h : Heap) (s t : St) (hi : InvSize h s) (st : Step h s t) : InvSize h t := by
+  cases st with
+  | add c pext b _ hr =>
+    rcases addCore_cases h s c pext b t hr with ⟨_, _, ht⟩ | ⟨_, nm, ev, rw⟩
+    · subst ht; exact hi
+    · refine ⟨?_, ?_⟩
+      · rw [rw.refs, size_set]; exact hi.1
+      · rw [rw.pirefs]; exact hi.2
+  | clear c => exact ⟨(size_set _ _ _).trans hi.1, hi.2⟩
+  | enter p fl => exact ⟨hi.1, (size_set _ _ _).trans hi.2⟩
+  | silent _ hr hp _ _ _ _ => exact ⟨by rw [hr]; exact hi.1, by rw [hp]; exact hi.2⟩
+
+theorem invSize_init (h : Heap) : InvSize h (initSt h) := by
+  constructor <;> simp [initSt]
+
+theorem get_of_mem (a : Array Str) (x : Str) (hx : x ∈ a.toList) : ∃ j, j < a.size ∧ a[j]! = x := by
+  obtain ⟨j, hj, e⟩ := List.getElem_of_mem hx
+  have hj' : j < a.size := by simpa using hj
+  refine ⟨j, hj', ?_⟩
+  simp only [Array.getElem!_eq_getD, Array.getD_eq_getD_getElem?]
+  have : a[j]? = some a[j] := by simp [hj']
+  simp [this]
+  simpa using e
+
+/-- where the executable spec holds on a state whose arrays have the heap's sizes, every text is internal -/
+theorem allIntB_of_spec (h : Heap) (s : St) (hz : InvSize h s) (hs : specB h s = true) : allIntB s = true := by
+  unfold specB at hs
+  simp only [Bool.and_eq_true] at hs
+  obtain ⟨⟨⟨⟨hc, hp⟩, _⟩, _⟩, _⟩ := hs
+  rw [List.all_eq_true] at hc
+  unfold pisOK at hp
+  rw [List.all_eq_true] at hp
+  unfold allIntB
+  rw [Bool.and_eq_true, List.all_eq_true, List.all_eq_true]
+  refine ⟨fun x hx => ?_, fun x hx => ?_⟩
+  · obtain ⟨j, hj, e⟩ := get_of_mem _ _ hx
+    have hj' : j < h.cells.size := hz.1 ▸ hj
+    have hok := hc j (List.mem_range.mpr hj')
+    unfold cellOK at hok
+    rw [← e]
+    split at hok
+    · rw [Bool.and_eq_true] at hok
+      have e1 : s.refs[j]! = origRef h j := by simpa using hok.1
+      rw [e1]; exact hok.2
+    · rw [Bool.and_eq_true] at hok
+      exact hok.1
+  · obtain ⟨j, hj, e⟩ := get_of_mem _ _ hx
+    have hj' : j < h.pis.size := hz.2 ▸ hj
+    have hok := hp j (List.mem_range.mpr hj')
+    rw [← e]
+    have : s.pirefs[j]! = [] := by simpa using hok
+    rw [this]; rfl
+
 end KinModel.Internalize
